@@ -14,7 +14,7 @@ patch) and `meta.json` (what the machinery reported, written by `tools/seed_matr
 `/repo/include` - never to `/repo`).  The authors got the brief printed by `tools/seed_prompt.py`: the property's text and anchors, their own
 scratch worktree, nothing from `/verif`.  %d seeds so far; every one is caught.  "native family only" means the change alters a signature
 or a loop structure (the extracted unit no longer matches its recipe -> undecided -> the unit's replay families decide on the real code)
-or is a type-level change no contract reaches (thorough tier only, listed below).  Several seeds made me strengthen the machinery first - each
+or is a type-level change no contract reaches (the native families decide; since 10.3(c)/(d) also in the quick tier).  Several seeds made me strengthen the machinery first - each
 such case is a unit, an obligation or a scenario that now exists:
 
 * C03a/C08b -> MEMBERINIT rule + `history_impl.member_init` units; `hist` scenario "first entry by a history event".
